@@ -67,6 +67,12 @@ def check_split(case, ctx):
         # splitting inserts knots: stay 2^-18 away from existing knots (the library identifies knots closer than 1e-7)
         where = list(where[:4]) + [2.0 ** -18]
     u, kind = build.resolve_param(d["degree"][k], kvs[k], szs[k], where, others=[o for j, o in enumerate(kvs) if j != k])
+    u_call = u
+    if where[0] == "within" and kind == "near":
+        # a parameter the library identifies with an existing knot (closer than 10e-8): the split is the split at that knot
+        u = min((x for x in kvs[k] if abs(x - u) <= 1e-7), key=lambda x: abs(x - u))
+        kind = "knot"
+        ctx.label("parameter-identified-with-a-knot-by-tolerance")
     ctx.label("param-is-knot-of-other-direction", case["where"][0] == "other" and pdim > 1)
     if case["read"]:
         obj.delta = 0.25
@@ -81,7 +87,7 @@ def check_split(case, ctx):
         ctx.nt(True, "split-at-domain-end")
         raised = False
         try:
-            _split(obj, k, u, **_kw(case))
+            _split(obj, k, u_call, **_kw(case))
         except GeomdlException:
             raised = True
         ctx.check(raised, "end-split-not-rejected", "splitting at the domain end %r (dir %d) was accepted" % (u, k))
@@ -93,7 +99,7 @@ def check_split(case, ctx):
     ctx.nt(build.varied_weights(d), "rational-varied")
     ctx.nt(pdim == 2, "surface")
     ctx.label("binary-span-search", bool(case.get("binsearch")))
-    pieces = _split(obj, k, u, **_kw(case))
+    pieces = _split(obj, k, u_call, **_kw(case))
     ctx.check(len(pieces) == 2, "piece-count", "split returned %d pieces" % len(pieces))
     ctx.check(build.snapshot(obj) == before, "input-modified", "split modified its input")
     views_after = ([list(p) for p in obj.ctrlpts], list(obj.weights) if obj.rational else None)
